@@ -159,10 +159,20 @@ def program(rng, allow_int_gather=False):
         for r in res:
             if r.uses and rng.random() < 0.6:
                 u = [x for x in r.uses if not (st == "vertex" and ("textureStore" in x or "= 1" in x or "atomic" in x.lower()) and False)]
-                if rng.random() < 0.3:
+                if rng.random() < 0.4:
                     h = "h%d_%d" % (si, len(helpers))
                     helpers.append("fn %s() { %s }" % (h, " ".join(u)))
-                    stmts.append("%s();" % h)
+                    call = "%s();" % h
+                    k = rng.randrange(6)      # where the call sits
+                    if k == 0:
+                        call = "loop { if (true) { break; } continuing { %s } }" % call
+                    elif k == 1:
+                        call = "for (var i_%d = 0; i_%d < 1; %s) { i_%d += 1; }" % (len(helpers), len(helpers), call[:-1], len(helpers))
+                    elif k == 2:
+                        call = "if (false) { } else { %s }" % call
+                    elif k == 3:
+                        call = "switch (1) { case 2: { } default: { %s } }" % call
+                    stmts.append(call)
                 else:
                     stmts += u
                 tags.add(r.tag)
